@@ -69,8 +69,15 @@ def fam_ladder(n):
 
 def random_connected_graph(rng, nmin=1, nmax=6, multi=True):
     n = rng.randint(nmin, nmax)
-    fam = rng.choice(["path", "cycle", "star", "complete", "wheel", "barbell", "ladder", "tree", "gnp", "gnp", "gnp", "multi"])
+    fam = rng.choice(["path", "cycle", "star", "complete", "wheel", "barbell", "ladder", "tree", "gnp", "gnp", "gnp", "multi", "heavytree", "heavytree"])
     if n <= 1: return mk_graph(1, [], rng), "single"
+    if fam == "heavytree":
+        # trees (plus at most one extra edge) with large multiplicities: borrowing ping-pongs along heavy edges far from the sink
+        e = [(i, rng.randrange(i), rng.choice([1, 1, 2, 3, 4, 5])) for i in range(1, n)]
+        if n >= 3 and rng.random() < 0.3:
+            a, b = rng.sample(range(n), 2); e.append((a, b, rng.choice([1, 2])))
+        perm = list(range(n)); rng.shuffle(perm)
+        return mk_graph(n, [(perm[i], perm[j], k) for i, j, k in e], rng), fam
     if fam == "path": e = fam_path(n)
     elif fam == "cycle": e = fam_cycle(n)
     elif fam == "star": e = fam_star(n)
@@ -105,7 +112,12 @@ def random_divisor(rng, G, band=None, big=False):
         if i < nd and D[i] > 0: D[i] = -D[i]
         elif i >= nd and D[i] < 0: D[i] = -D[i]
     rng.shuffle(D)
-    if band is None: band = rng.choice(["neg", "low", "mid", "high", "any", "any"])
+    if band is None: band = rng.choice(["neg", "low", "mid", "high", "any", "any", "edge", "edge"])
+    if band == "edge":   # many small debts, total degree just around the genus: verdicts are sensitive to exact reduction
+        D = [rng.randint(-3, 3) for _ in range(n)]
+        if n > 0:
+            j = rng.randrange(n); D[j] += rng.randint(0, g + 2) - sum(D)
+        return D
     tgt = None
     if band == "neg": tgt = rng.randint(-3, -1)
     elif band == "low" and g >= 1: tgt = rng.randint(0, max(0, g - 1))
@@ -188,3 +200,59 @@ def run_impl(prop, cases, seeds, extra_env=None, timeout=3000):
 
 def sha(obj):
     return hashlib.sha1(json.dumps(obj, sort_keys=True, default=str).encode()).hexdigest()[:12]
+
+# ---------------------------------------------------------------- helpers used by several property modules (implementation side)
+def impl_reduce_q(G, D, q, rng=None):
+    """q-reduce D with respect to the given sink through the public DharAlgorithm API (same loop as algo.EWD)."""
+    from chipfiring.CFDhar import DharAlgorithm
+    d = build_impl_divisor(G, D, rng=rng)
+    dh = DharAlgorithm(d.graph, d, G["names"][q])
+    unb, ori = dh.run()
+    guard = 0
+    while len(unb) > 0:
+        dh.legal_set_fire(unb); unb, ori = dh.run(); guard += 1
+        if guard > 100000: raise RuntimeError("reduction loop does not stop")
+    return div_to_list(G, dh.configuration.divisor), ori
+
+def orientation_pairs(G, ori):
+    idx = {nm: i for i, nm in enumerate(G["names"])}
+    out = []
+    for a, b, k in G["edges"]:
+        r = ori.get_orientation(G["names"][a], G["names"][b])
+        if r is not None: out.append([idx[r[0]], idx[r[1]]])
+    return out
+
+def toposort_pos(n, pairs):
+    """positions in a topological order of the orientation (Kahn); arbitrary completion if cyclic"""
+    indeg = [0] * n; adj = [[] for _ in range(n)]
+    for a, b in pairs: adj[a].append(b); indeg[b] += 1
+    order = []; ready = [v for v in range(n) if indeg[v] == 0]
+    while ready:
+        v = ready.pop(0); order.append(v)
+        for w in adj[v]:
+            indeg[w] -= 1
+            if indeg[w] == 0: ready.append(w)
+    order += [v for v in range(n) if v not in order]
+    pos = [0] * n
+    for i, v in enumerate(order): pos[v] = i
+    return pos
+
+def lap_apply(G, D, s):
+    M = matrix(G); n = G["n"]
+    return [D[v] - sum(M[v][w] * (s[v] - s[w]) for w in range(n)) for v in range(n)]
+
+def min_vertices(D):
+    mn = min(D); return [i for i, x in enumerate(D) if x == mn]
+
+class RaisingPool:
+    """stand-in for multiprocessing.Pool: unusable worker pool -> CFRank falls back to sequential evaluation"""
+    def __init__(self, *a, **k): raise OSError("worker pool unavailable (harness stub)")
+class InProcessPool:
+    """stand-in for multiprocessing.Pool that evaluates in-process, in reverse order (an 'unordered' pool)"""
+    def __init__(self, *a, **k): pass
+    def __enter__(self): return self
+    def __exit__(self, *a): return False
+    def imap_unordered(self, f, it):
+        items = list(it); items.reverse()
+        for x in items: yield f(x)
+    def terminate(self): pass
